@@ -94,7 +94,8 @@ func (f *Future[T]) PipeTo(forwarders vivid.ActorRefs) error {
 		verifhook.At("fut.pipe.wait", f, nil)
 		<-f.done
 		verifhook.At("fut.pipe.tell", f, nil)
-		f.tellForwarders(forwarders, f.message, f.err)
+		// 与完成前登记的路径一致：同一个转发目标在列表中出现多次时也只投递一次
+		f.tellForwarders(forwarders.Unique(), f.message, f.err)
 		return nil
 	}
 	f.forwarders = append(f.forwarders, forwarders...).Unique()
